@@ -23,7 +23,8 @@ BUDGET = {'quick': 240, 'thorough': 3000}
 
 def shards(tier):
     if tier == 'quick':
-        return e1.std_shards(tier, with_p=True, with_big=True) + space.w_shards(sizes=(31, 65), kinds=('ordinal',))
+        return [('DEEP', 1200)] + e1.std_shards(tier, with_p=True, with_big=True) + \
+            space.w_shards(sizes=(31, 65), kinds=('ordinal',))
     sh = e1.std_shards(tier, with_p=True, with_big=True, extra_thorough_shapes=((4, 5), (5, 4)))
     return sh + [s for s in space.w_shards() if s not in sh] + [('W', 'ordinal', 1200)]
 
@@ -87,7 +88,42 @@ def check_case(case, ctr):
     return V
 
 
+def run_deep(k):
+    """The staircase of k objects: the two FCbO generators against each other and against
+    the concept set written down directly (extent {0..i} with intent {i..k-1}); no R1."""
+    import collections
+    import concepts
+    from concepts import algorithms
+    ctr = collections.Counter()
+    objs = tuple(f'o{i:04d}' for i in range(k))
+    props = tuple(f'p{j:04d}' for j in range(k))
+    V = []
+    for kind in ('ordinal', 'ordinal-rev'):     # both orientations of the staircase
+        ctx = concepts.Context(objs, props, space.scale(kind, k))
+        if kind == 'ordinal':       # row i has the properties i..k-1
+            exp = {(objs[:i + 1], props[i:]) for i in range(k)}
+        else:                       # row i has the properties 0..i
+            exp = {(objs[i:], props[:i + 1]) for i in range(k)}
+        for name, fn in (('fast_generate_from', algorithms.fast_generate_from),
+                         ('fcbo_dual', algorithms.fcbo_dual)):
+            case = {'family': kind, 'k': k, 'producer': name}
+            try:
+                got = [(e.members(), i.members()) for e, i in fn(ctx)]
+            except Exception as e:
+                V.append(common.library_exception(ID, case, e))
+                continue
+            ctr['calls'] += 1
+            if len(got) != len(set(got)) or set(got) != exp:
+                V.append(common.violation(ID, 'concept-set', case,
+                                          f'{len(exp)} nested concepts', f'{len(got)} pairs'))
+    ctr['tables'] += 1
+    ctr['evaluations'] += 1
+    return {'counters': dict(ctr), 'violations': V, 'samples': [], 'outcomes': []}
+
+
 def run_shard(shard, tier):
+    if shard[0] == 'DEEP':
+        return run_deep(shard[1])
     return e1.run_shard_generic(shard, tier, ID, check_case)
 
 
@@ -96,4 +132,6 @@ def main(tier):
 
 
 def replay(v):
+    if v['case'].get('family', '').startswith('ordinal') and 'tag' not in v['case']:
+        return run_deep(v['case']['k'])['violations']
     return e1.replay_e1(__import__(__name__, fromlist=['x']), v)
